@@ -318,7 +318,9 @@ def serialize_to_xml(elements: Iterable[Any],
             chunks.append(ck.decode('utf-8').rstrip(elem.tail))
         else:
             if cks and cks[0].startswith(b'<?'):
-                cks[0] = cks[0].replace(b'\'', b'"')
+                # use double quotes in the XML declaration (only)
+                head, sep, tail = cks[0].partition(b'?>')
+                cks[0] = head.replace(b'\'', b'"') + sep + tail
             chunks.append(b'\n'.join(cks).decode('utf-8').rstrip(elem.tail))
 
     if not character_map:
@@ -363,7 +365,8 @@ def serialize_to_json(elements: Iterable[Any],
                         return cast(str, chunk.decode('utf-8'))
                     else:
                         if chunks and chunks[0].startswith(b'<?'):
-                            chunks[0] = chunks[0].replace(b'\'', b'"')
+                            head, sep, tail = chunks[0].partition(b'?>')
+                            chunks[0] = head.replace(b'\'', b'"') + sep + tail
                         return b'\n'.join(chunks).decode('utf-8')
 
                 elif isinstance(obj, (AttributeNode, NamespaceNode)):
